@@ -444,7 +444,7 @@ impl C09 {
             );
             return;
         }
-        acc.outcome("ok", case);
+        acc.outcome(&format!("located:{}", sut.name), case);
     }
 }
 
